@@ -8,8 +8,35 @@ let check (fields : sexp list) : verdict * string option =
   let r = run_sess fields in
   (correspondence fields r, cross_of r)
 
+(* non-trivial: the client sent something after its first packet (or a callback
+   ran); distinct: by configuration and client byte stream *)
 let nontrivial (fields : sexp list) : string option =
   let o = field "obs" fields in
-  match field "events" o with
-  | [] -> None
-  | _ -> Some (Digest.to_hex (Digest.string (show_sexp (L (field "cfg" fields)) ^ atom (field1 "raw" fields))))
+  let raw = atom (field1 "raw" fields) in
+  let n = (String.length raw - 1) / 2 in
+  let first_len =
+    if n < 4 then max_int
+    else int_of_string ("0x" ^ String.sub raw 1 8) in
+  if field "events" o <> [] || n > first_len then
+    Some (Digest.to_hex (Digest.string (show_sexp (L (field "cfg" fields)) ^ raw)))
+  else None
+
+(* property checks: the oracle on the implementation's log first (a failing
+   oracle is a concrete counterexample), then the correspondence with the model *)
+let check_with (needs_lock : bool) (oracle : scase -> ev list -> bool) (fields : sexp list) : verdict * string option =
+  let r = run_sess fields in
+  let cross = cross_of r in
+  match r.impl with
+  | None -> (OracleFail "implementation output is not a well-formed backend message stream", cross)
+  | Some il ->
+      if r.obs_.hang then (OracleFail "implementation hangs (no reply / connection not ended within the timeout)", cross)
+      else if (is_lock fields || not needs_lock) && not (oracle r.case_ il) then
+        (OracleFail (Printf.sprintf "property oracle rejects the observed log (rule %s)\n    impl:  %s\n    model: %s"
+                       (string_of_z (turn_verdict r.case_ il).t_why) (show_log il)
+                       (show_log (if is_lock fields then r.model else strip_consume r.model))), cross)
+      else (correspondence fields r, cross)
+
+let check_C05 = check_with true oracle_C05
+let check_C06 = check_with true oracle_turns
+let check_C01 = check_with false oracle_C01
+let check_C12 = check_with false oracle_C12
